@@ -44,8 +44,10 @@ type scenario struct {
 	Bcast   bool     `json:"broadcast_flag"`
 }
 
-var discKinds = []string{"offer", "offer", "offer-dup", "offer-wrongxid", "ack-instead", "nak-instead", "undecodable", "offer-wronghw", "offer-emptyhw", "offer-request-opcode", "silence"}
-var reqKinds = []string{"ack", "ack", "nak", "ack-othersid", "ack-nosid", "offer-again", "ack-wrongxid", "nak-othersid", "undecodable", "silence"}
+// notype: a plain BOOTP reply (no option 53); badtype: option 53 with two octets; inform: a message type no exchange
+// waits for.  All three carry the right transaction id, hardware address and the server's identifier: "everything else is ignored".
+var discKinds = []string{"notype", "badtype", "inform", "offer", "offer", "offer-dup", "offer-wrongxid", "ack-instead", "nak-instead", "undecodable", "offer-wronghw", "offer-emptyhw", "offer-request-opcode", "silence"}
+var reqKinds = []string{"notype", "badtype", "inform", "ack", "ack", "nak", "ack-othersid", "ack-nosid", "offer-again", "ack-wrongxid", "nak-othersid", "undecodable", "silence"}
 
 func genScenario(rng *rand.Rand, maxServers, maxReact int) scenario {
 	sc := scenario{Bcast: rng.IntN(2) == 0}
@@ -153,8 +155,20 @@ func (w *world) datagram(sv *server, si int, kind string, req *ref4.P4) (*inject
 		mt = dhcpv4.MessageTypeAck
 		p.TransactionID[3] ^= 1
 		in.class = "dropped"
+	case "notype", "badtype":
+		mt = dhcpv4.MessageTypeNone
+		p.YourIPAddr = net.IP{192, 168, byte(si + 1), 251}
+	case "inform":
+		mt = dhcpv4.MessageTypeInform
+		p.YourIPAddr = net.IP{192, 168, byte(si + 1), 252}
 	}
-	p.UpdateOption(dhcpv4.OptMessageType(mt))
+	switch kind {
+	case "notype":
+	case "badtype":
+		p.UpdateOption(dhcpv4.OptGeneric(dhcpv4.OptionDHCPMessageType, []byte{5, 2}))
+	default:
+		p.UpdateOption(dhcpv4.OptMessageType(mt))
+	}
 	if sid != nil {
 		p.UpdateOption(dhcpv4.OptGeneric(dhcpv4.OptionServerIdentifier, sid))
 	}
@@ -537,8 +551,8 @@ func shapeOf(sc scenario, outc string) string {
 // enumerate: all tables with <= 2 servers and <= 1 reaction per phase (delays 0 / 150 ms)
 func enumerate() []scenario {
 	var out []scenario
-	dk := []string{"offer", "offer-wrongxid", "ack-instead", "nak-instead", "undecodable", "silence"}
-	rk := []string{"ack", "nak", "ack-othersid", "ack-nosid", "offer-again", "ack-wrongxid", "silence"}
+	dk := []string{"notype", "offer", "offer-wrongxid", "ack-instead", "nak-instead", "undecodable", "silence"}
+	rk := []string{"notype", "badtype", "ack", "nak", "ack-othersid", "ack-nosid", "offer-again", "ack-wrongxid", "silence"}
 	mk := func(i int, d, q string, delay int) server {
 		return server{ID: [4]byte{10, 0, byte(i + 1), 1}, Addr: [4]byte{192, 168, byte(i + 1), 50}, AckAddr: [4]byte{192, 168, byte(i + 1), 50},
 			OnDisc: []reaction{{d, delay}}, OnRequest: []reaction{{q, 0}}, OnRenew: []reaction{{q, 0}}}
